@@ -1378,10 +1378,10 @@ func (r *Run) ghostAt(fr *Frame, st *State, reach Term, anchor string, instr ssa
 		r.oblige(fr, "assert", "", fmt.Sprintf("%sassert@%s.%s", r.inlinePrefix(fr), anchor, clauseName(ac.C, ai)), reach, g, props, pos, ac.C.Text)
 	}
 	for _, gb := range sp.Ghost {
-		if gb.Anchor != anchor {
+		if gb.Anchor != anchor && !anchorWildcard(gb.Anchor, anchor) {
 			continue
 		}
-		r.noteAnchor(sp, anchor)
+		r.noteAnchor(sp, gb.Anchor)
 		env := r.baseEnv(fr, st)
 		if instr != nil {
 			env.pos = instr.Pos()
